@@ -68,6 +68,9 @@ def final_stage(run, idx, bits, integer, rng):
   run.add_twin("F%02d_final" % idx, ir.build_smt(b, dom + [ir.L("(= {0} {0})", o)]), meta=meta)
 
 
+FLOOR_SPLIT = 2.0 ** -12      # 2.4e-4 >> 127 * 1e-7: above it the epsilon floor of quantized_linear's step cannot bind (bits <= 8)
+
+
 # ---- A. 'auto': the channel maximum is mapped to the top code and not clipped; finite outputs; positive scale ----------------
 def auto_channel(run, idx, cls, bits, integer, rng):
   import tensorflow as tf
@@ -103,7 +106,19 @@ def auto_channel(run, idx, cls, bits, integer, rng):
           meta=dict(meta, clause="scale_positive"), timeout=1500)
   # the element of largest magnitude is reproduced up to float rounding (top code, not clipped): |out_a - a| <= |a| * 2^-20
   nc = "(and (fp.geq (fp.abs {0}) (fp.abs {1})) (not (fp.isZero {0})) (fp.gt (fp.abs (fp.sub RNE {2} {0})) (fp.mul RNE (fp.abs {0}) %s)))" % L(2.0 ** -20)
-  if not (cls == "quantized_linear" and run.quick()):       # ~20 min for quantized_linear (division by a non-power-of-two scale): thorough tier only
+  if cls == "quantized_linear":
+    # quantized_linear floors its quantization step at keras epsilon (1e-7): 'top code' is only meaningful for maxima well
+    # above top_code * 1e-7.  Two regions for the strict clause (the lower one is a recorded finding) and, for the whole
+    # domain, 'not clipped' in its literal sense: the maximum is within (just over) half a step of its image.
+    if not run.quick():      # ~20 min each (division by a non-power-of-two scale): thorough tier only
+      hi_r = ir.L("(fp.geq (fp.abs {0}) %s)" % L(FLOOR_SPLIT), xa)
+      lo_r = ir.L("(fp.lt (fp.abs {0}) %s)" % L(FLOOR_SPLIT), xa)
+      run.add("A%02d_max_not_clipped" % idx, ir.build_smt(b, dom + [hi_r, ir.L(nc, xa, xb, oa)]), meta=dict(meta, clause="max_not_clipped", region="above_epsilon_floor"), timeout=3600)
+      run.add("A%02d_max_not_clipped_floor" % idx, ir.build_smt(b, dom + [lo_r, ir.L(nc, xa, xb, oa)]), meta=dict(meta, clause="max_not_clipped", region="near_epsilon_floor"), timeout=3600)
+      unit = "(fp.mul RNE {3} %s)" % L(2.0 ** (integer - (bits - 1)))
+      rounded = "(and (fp.geq (fp.abs {0}) (fp.abs {1})) (not (fp.isZero {0})) (fp.gt (fp.abs (fp.sub RNE {2} {0})) (fp.mul RNE %s %s)))" % (unit, L(0.5 + 2.0 ** -10))
+      run.add("A%02d_max_within_half_step" % idx, ir.build_smt(b, dom + [ir.L(rounded, xa, xb, oa, s0)]), meta=dict(meta, clause="max_within_half_step"), timeout=3600)
+  else:
     run.add("A%02d_max_not_clipped" % idx, ir.build_smt(b, dom + [ir.L(nc, xa, xb, oa)]), meta=dict(meta, clause="max_not_clipped"), timeout=3600)
   run.add_twin("A%02d" % idx, ir.build_smt(b, dom + [ir.L("(= {0} {0})", oa), ir.L("(fp.gt (fp.abs {0}) (fp.abs {1}))", xa, xb)]), meta=meta)
 
@@ -274,6 +289,12 @@ def replay_concrete(rep):
     i = int(np.argmax(np.abs(x.reshape(-1))))
     a, oa = float(x.reshape(-1)[i]), float(out.reshape(-1)[i])
     return bool(a != 0 and abs(oa - a) > abs(a) * 2.0 ** -20), detail
+  if cl == "max_within_half_step":
+    i = int(np.argmax(np.abs(x.reshape(-1))))
+    a, oa = float(x.reshape(-1)[i]), float(out.reshape(-1)[i])
+    kw = rep["kw"]
+    unit = float(S.reshape(-1)[0]) * 2.0 ** (kw["integer"] - (kw["bits"] - 1))
+    return bool(a != 0 and abs(oa - a) > unit * (0.5 + 2.0 ** -10)), dict(detail, unit=unit)
   if cl == "scale_po2":
     fr, ex = np.frexp(S.astype(np.float64))
     bad = np.any(S <= 0) or np.any(fr != 0.5) or not np.all(np.isfinite(S))
@@ -323,7 +344,10 @@ def triage(run):
         rep = dict(clause=m["clause"], cls=m["cls"], kw=m["kw"], shape=m["shape"], model=r.model)
       ok, detail = replay_concrete(rep)
       if ok:
-        run.violation(dict(clause=m["clause"], cls=m.get("cls", "quantized_bits")), detail, rep)
+        sig = dict(clause=m["clause"], cls=m.get("cls", "quantized_bits"))
+        if m.get("region"):
+          sig["region"] = m["region"]
+        run.violation(sig, detail, rep)
       else:
         run.inconclusive_("counterexample of %s does not reproduce on the real code: %s" % (o.oid, str(detail)[:300]))
     else:
@@ -366,7 +390,9 @@ def run(tier, seed):
                  "(StatelessWhile unrolled exactly)", "_get_least_squares_scale", "_get_scale_mean", "_clip_po2_scale"]
   r.bounds = ["final stage: every power-of-two scale 2^j, |j| <= 20, symbolic, driven through the real frozen-scale branch; |x| < 2^20 units; bits/integer lattice",
               "'auto': one channel of two symbolic elements (2^-20 <= |x| < 2^40 or 0): finite outputs and scale, positive scale unless all-zero, the "
-              "element of largest magnitude reproduced up to 2^-20 relative (top code, not clipped)",
+              "element of largest magnitude reproduced up to 2^-20 relative (top code, not clipped); for quantized_linear (thorough tier) this strict form is "
+              "split at |max| = 2^-12 because its step is floored at keras epsilon (the lower region is a recorded finding) and the literal 'not "
+              "clipped' (within just over half a step) is decided for the whole domain",
               "'auto_po2' (quantized_bits): channels of two (thorough: three) symbolic elements; power-of-two-ness of the exposed scale by induction over "
               "the refinement rounds, each round one query with the previous working scale as a cut point constrained by the invariant "
               "'positive power of two, exponent in [%d,%d]'; quantized_linear's while-loop variant is covered for structure and 'auto' only" % (INV_LO, INV_HI),
